@@ -643,8 +643,11 @@ static int _open_seekable2(OggVorbis_File *vf){
 
   /* we can seek, so set out learning all about this file */
   if(vf->callbacks.seek_func && vf->callbacks.tell_func){
-    (vf->callbacks.seek_func)(vf->datasource,0,SEEK_END);
-    vf->offset=vf->end=(vf->callbacks.tell_func)(vf->datasource);
+    if((vf->callbacks.seek_func)(vf->datasource,0,SEEK_END)==-1)
+      vf->offset=vf->end=-1; /* could not get to the end: the length
+                                tell would report is not the file's */
+    else
+      vf->offset=vf->end=(vf->callbacks.tell_func)(vf->datasource);
   }else{
     vf->offset=vf->end=-1;
   }
